@@ -3450,6 +3450,7 @@ func ruleC10ReaderClosedBeforeReopen(c *Ctx) {
 	}
 	n := 0
 	seen := map[*FuncInfo]bool{}
+	passesOn := map[*FuncInfo]bool{}
 	var visit func(g *FuncInfo)
 	visit = func(g *FuncInfo) {
 		if seen[g] {
@@ -3468,7 +3469,9 @@ func ruleC10ReaderClosedBeforeReopen(c *Ctx) {
 			}
 		})
 		for _, cs := range g.calls {
-			if cs.Target != nil && opens[cs.Target] && cs.Target != g {
+			// a call is a site only when the callee leaves its own site to its callers (a callee that closes first, or opens
+			// only where no stream can be open, has discharged the obligation itself)
+			if cs.Target != nil && passesOn[cs.Target] && cs.Target != g {
 				sites = append(sites, cs.Call)
 			}
 		}
@@ -3489,6 +3492,7 @@ func ruleC10ReaderClosedBeforeReopen(c *Ctx) {
 			}
 			if g.Decl != nil && !g.Decl.Name.IsExported() && callers > 0 {
 				opens[g] = true
+				passesOn[g] = true
 				for _, h := range c.Funcs {
 					for _, cs := range h.calls {
 						if cs.Target == g {
@@ -4917,7 +4921,34 @@ func ruleRenameMoves(rule string) func(*Ctx) {
 					b, ok := isCmp(ft.E)
 					return ok && ((b.Op == token.EQL) == ft.Pos)
 				}, nil); reach && same {
-					c.ok(rule, f, fmt.Sprintf("return#%d", i+1), ret.Pos(), true, "success without a move only where source and destination are the same entry")
+					// ... and the source is known to exist: the exit lies behind a lookup of the source (a call that is handed
+					// the old name and can fail). `oldname == newname` in front of every lookup also holds for names that
+					// were never created.
+					oldV := paramVar(f, "oldname")
+					looked, _ := fl.dominatedBy(ret, func(m ast.Node) bool {
+						for _, call := range callsIn(m) {
+							tv, ok := info.Types[call]
+							if !ok {
+								continue
+							}
+							tup, ok := tv.Type.(*types.Tuple)
+							if !ok || tup.Len() < 2 || !isErrorType(tup.At(tup.Len()-1).Type()) {
+								continue
+							}
+							for _, a := range call.Args {
+								if o := objOfIdent(info, a); o != nil && o == types.Object(oldV) {
+									return true
+								}
+							}
+						}
+						return false
+					}, nil)
+					if looked {
+						c.ok(rule, f, fmt.Sprintf("return#%d", i+1), ret.Pos(), true, "success without a move only where source and destination are the same entry")
+						continue
+					}
+					n++
+					c.bad(rule, f, fmt.Sprintf("success without lookup#%d", n-viaMove), ret.Pos(), "Rename reports success for source == destination before it has looked the source up: renaming a name that does not exist (never created, removed, beneath a missing parent) onto itself succeeds, and Rename(\"/\", \"/\") no longer fails")
 					continue
 				}
 			}
